@@ -1033,11 +1033,12 @@ def _oracle_bump(case, obs):
                 # shipped earlier by an ancestor build of the same branch.  Classify (only the signature depends on
                 # the reported bump; that it IS a violation was decided above from the raw histories):
                 earlier = [q for q in cont if q != p and q in panc[p]]
-                if any(q in cross and any(e in panc[q] for e in earlier if e in same) for q in earlier):
-                    # between the earlier shipping build(s) and this one the branch pinned a build of ANOTHER component
-                    # release branch whose git history contains B.  The code links RBuilds of one component branch
-                    # only (see notes: containment across component release branches), so for it the pin left B and
-                    # came back; whether that is "shipped again" is the same ambiguity of the text: no demand.
+                if any(q in cross for q in earlier):
+                    # an earlier build of the branch ships B only through a build of ANOTHER component release branch
+                    # whose git history contains B.  The code links RBuilds of one component branch only (see notes:
+                    # containment across component release branches), so for it that build does not ship B and this
+                    # one is the first (or the pin left B and came back); whether the text counts the cross-branch
+                    # build is the same ambiguity: no demand.
                     continue
                 rep = reported.get((bi, p))
                 fr = rep["bump"][3] if rep is not None and rep["bump"] is not None else []
